@@ -353,3 +353,34 @@ pub fn c17_types() -> Vec<CellDef> {
         Out { ok, nt: true, got: ok as u128, want: 1, ops: 9, panicked: false }
     })]
 }
+
+/// posit-to-posit conversions: `D::from(p)`, `p.into()`, `D::from_<src>(p)` and `p.to_<dst>()` are one operation
+pub fn c17_conv(thorough: bool) -> Vec<CellDef> {
+    use crate::fixed::unary_low;
+    use softposit::{P16E1, P32E2, P8E0};
+    let mut v = vec![];
+    macro_rules! conv {
+        ($S:ty, $D:ty, $from:ident, $to:ident) => {
+            for (sfx, sp) in unary_low::<$S>(thorough, 8) {
+                v.push(CellDef::new("C17", format!("{}->{}/conversion_spellings{}", <$S as Fx>::NAME, <$D as Fx>::NAME, sfx), sp, |k| {
+                    let p = <$S as Fx>::fb(k as u32);
+                    let got = guard(|| {
+                        let a = <$D>::$from(p).to_bits();
+                        let b = <$D as From<$S>>::from(p).to_bits();
+                        let c: $D = p.into();
+                        let d = p.$to().to_bits();
+                        ((a != b) as u128) | ((a != c.to_bits()) as u128) << 1 | ((a != d) as u128) << 2
+                    });
+                    Out::cmp(got, 0, true).ops(4)
+                }));
+            }
+        };
+    }
+    conv!(P8E0, P16E1, from_p8e0, to_p16e1);
+    conv!(P8E0, P32E2, from_p8e0, to_p32e2);
+    conv!(P16E1, P8E0, from_p16e1, to_p8e0);
+    conv!(P16E1, P32E2, from_p16e1, to_p32e2);
+    conv!(P32E2, P8E0, from_p32e2, to_p8e0);
+    conv!(P32E2, P16E1, from_p32e2, to_p16e1);
+    v
+}
